@@ -447,7 +447,7 @@ def run(run, tier, seed, replay=None):
     rnd = random.Random(seed)
     if replay is not None:
         return run_replay(run, b, replay, rnd)
-    nprog, k, max_cases = (64, 2, 6000) if tier == "quick" else (700, 5, 40000)
+    nprog, k, max_cases = (48, 2, 5000) if tier == "quick" else (700, 5, 40000)
     if not b.ok:
         nprog, k = nprog * 2, k + 1          # a broken tie/proof: look harder for a program on which the property fails
     progs = []
